@@ -20,7 +20,7 @@ RULE = ("mflat models with at least one for-equation and one user-function call 
         "loop and a function call)")
 ASSUMPTIONS = ["Boolean variables are sampled in {0,1} (MX short-circuit if_else and its SX expansion agree only there)",
                "function values are compared with rtol 1e-9; points where any variant returns a non-finite value are discarded"]
-REQUIRED_MONITORS = ["option_combinations_compiled", "function_value_comparisons", "variable_list_comparisons"]
+REQUIRED_MONITORS = ["option_combinations_compiled", "function_value_comparisons", "variable_list_comparisons", "second_stage_comparisons"]
 BUDGET = {"quick": 50, "thorough": 700}
 COMBOS = list(itertools.product([True, False], repeat=3))
 LISTS = ("states", "der_states", "alg_states", "inputs", "parameters", "constants")
@@ -134,16 +134,54 @@ def check(ctx, m, gen, rng, tags):
         except (IndexError, KeyError, TypeError, ValueError):
             ctx.discard("point:reference-error")
             continue
-        pts.append(adapters.complete_point(ref, env))
+        pts.append(env)
     if not pts:
         ctx.discard("case:no-well-conditioned-point")
         return
+    if not compare(ctx, variants, pts, text, case, ""):
+        return
+    # second stage: the same further simplify() call on every variant (functions were read above, so anything
+    # remembered from the first reading is now out of date); the variants must still agree afterwards
+    stage2 = rng.choice(STAGE2)
+    for combo, model in variants.items():
+        opts = {"unroll_loops": combo[0], "inline_functions": combo[1], "expand_mx": combo[2]}
+        try:
+            model.simplify(dict(opts, **stage2))
+        except Exception as e:
+            if combo == (True, True, False):
+                ctx.discard("second-stage-reference-raises:" + type(e).__name__)
+                return
+            ctx.violation("C12:second-stage-raises:%s:%s" % (label(combo), exc_sig(e)),
+                          "options %s: a second simplify(%s) raised %r although it works for (unroll, inline, no expand)\n%s" % (label(combo), stage2, e, text),
+                          dict(case, combo=list(combo), stage2=stage2))
+            return
+    ctx.monitor("second_stage_comparisons")
+    ctx.cover("second-stage:" + "+".join(sorted(stage2)))
+    compare(ctx, variants, pts, text, dict(case, stage2=stage2), ":after-second-simplify")
+
+
+# only substitutions of parameter/constant symbols: their effect does not depend on the syntactic form of the
+# equations.  Pattern-based stages (detect_aliases, eliminate_constant_assignments) legitimately find more in an
+# inlined equation than in an opaque function call, so they are not used here.
+STAGE2 = [{"replace_constant_values": True}, {"replace_constant_values": True, "resolve_parameter_values": True},
+          {"replace_parameter_values": True, "replace_constant_values": True},
+          {"replace_parameter_expressions": True, "replace_constant_expressions": True}]
+
+
+def compare(ctx, variants, envs, text, case, stage):
+    """-> True when every variant agrees with the reference combination."""
+    ref = variants[(True, True, False)]
+    try:
+        pts = [adapters.complete_point(ref, env) for env in envs]
+    except Exception as e:
+        ctx.discard("reference-point-completion-raises:" + type(e).__name__)
+        return False
     ref_sig = signature(ref, pts[0])
     try:
         ref_vals = [function_values(ref, pt) for pt in pts]
     except Exception as e:
         ctx.discard("reference-evaluation-raises:" + type(e).__name__)
-        return
+        return False
     for combo, model in variants.items():
         if combo == (True, True, False):
             continue
@@ -151,20 +189,20 @@ def check(ctx, m, gen, rng, tags):
         try:
             sig = signature(model, pts[0])
         except Exception as e:
-            ctx.violation("C12:signature-unreadable:%s" % label(combo), "%r\n%s" % (e, text), dict(case, combo=list(combo)))
-            return
+            ctx.violation("C12:signature-unreadable:%s" % (label(combo) + stage), "%r\n%s" % (e, text), dict(case, combo=list(combo)))
+            return False
         for k in ref_sig:
             if sig[k] != ref_sig[k]:
-                ctx.violation("C12:variables-differ:%s:%s" % (label(combo), k),
-                              "options %s change %s: %s vs %s\n%s" % (label(combo), k, sig[k], ref_sig[k], text), dict(case, combo=list(combo)))
-                return
+                ctx.violation("C12:variables-differ:%s:%s" % ((label(combo) + stage), k),
+                              "options %s change %s: %s vs %s\n%s" % ((label(combo) + stage), k, sig[k], ref_sig[k], text), dict(case, combo=list(combo)))
+                return False
         for pt, rv in zip(pts, ref_vals):
             try:
                 vals = function_values(model, pt)
             except Exception as e:
-                ctx.violation("C12:function-raises:%s:%s" % (label(combo), type(e).__name__),
-                              "options %s: evaluating the model functions raised %r\n%s" % (label(combo), e, text), dict(case, combo=list(combo)))
-                return
+                ctx.violation("C12:function-raises:%s:%s" % ((label(combo) + stage), type(e).__name__),
+                              "options %s: evaluating the model functions raised %r\n%s" % ((label(combo) + stage), e, text), dict(case, combo=list(combo)))
+                return False
             for fn in ("dae_residual", "initial_residual", "variable_metadata", "delay_arguments"):
                 if any(not np.all(np.isfinite(np.asarray(x, float)) | np.isnan(np.asarray(x, float)) | np.isinf(np.asarray(x, float))) for x in rv[fn]):
                     continue
@@ -173,11 +211,12 @@ def check(ctx, m, gen, rng, tags):
                     continue
                 ctx.monitor("function_value_comparisons")
                 if not same_arrays(vals[fn], rv[fn]):
-                    ctx.violation("C12:function-differs:%s:%s" % (label(combo), fn),
-                                  "options %s change %s: %s vs %s\n%s" % (label(combo), fn, [np.asarray(x).tolist() for x in vals[fn]],
+                    ctx.violation("C12:function-differs:%s:%s" % ((label(combo) + stage), fn),
+                                  "options %s change %s: %s vs %s\n%s" % ((label(combo) + stage), fn, [np.asarray(x).tolist() for x in vals[fn]],
                                                                             [np.asarray(x).tolist() for x in rv[fn]], text),
                                   dict(case, combo=list(combo)))
-                    return
+                    return False
+    return True
 
 
 def label(c):
